@@ -141,7 +141,7 @@ def kind_vc(name, ctx, out, allowed_when, idx):
     return VC(name, z3.Not(allowed_when), judge, {"kind": kind})
 
 
-def agree_vc(name, ctx, outs, i, j, guard=None):
+def agree_vc(name, ctx, outs, i, j, guard=None, twin=False):
     """two outcomes of the same path must agree: same kind, equal values"""
     a, b = outs[i], outs[j]
     guard = guard if guard is not None else z3.BoolVal(True)
@@ -156,9 +156,11 @@ def agree_vc(name, ctx, outs, i, j, guard=None):
     ta, tb = val_term(a), val_term(b)
     if ta is None or tb is None:
         return None
+    if twin:
+        tb = tb + 1
     if ta.eq(tb):
         return None
-    g = ground_compare(ta, tb)
+    g = ground_compare(ta, tb) if not twin else None
     if g is not None:
         return VC(name + ":ground", None, None, {"failed": not g, "why": "ground values differ"})
 
@@ -166,7 +168,7 @@ def agree_vc(name, ctx, outs, i, j, guard=None):
         x, y = couts[i], couts[j]
         if x["kind"] != "value" or y["kind"] != "value" or x.get("mp") is None or y.get("mp") is None:
             return None
-        if not orc.close(x["mp"], y["mp"]):
+        if not orc.close(x["mp"], y["mp"] + (1 if twin else 0)):
             return f"values differ: {mpmath.nstr(x['mp'], 17)} vs {mpmath.nstr(y['mp'], 17)}"
         return None
     return VC(name, z3.And(guard, ta != tb), judge)
